@@ -13,7 +13,7 @@ import sys; sys.path.insert(0,'.')
 from translate import decisions
 r=decisions.generate()
 print({k:v['opaque'] for k,v in r.items() if v['opaque']})")
-  b=$(cd lean && lake build Poupool.Properties.DecisionsTie.Tank Poupool.Properties.DecisionsTie.Winter Poupool.Properties.DecisionsTie.Cover Poupool.Properties.DecisionsTie.Heating Poupool.Properties.DecisionsTie.Guards Poupool.Properties.DecisionsTie.Eco 2>&1 | grep -E "^error|✖|completed" | head -6 | tr '\n' ' ')
+  b=$(cd lean && lake build Poupool.Properties.DecisionsTie.Tank Poupool.Properties.DecisionsTie.Winter Poupool.Properties.DecisionsTie.Cover Poupool.Properties.DecisionsTie.Heating Poupool.Properties.DecisionsTie.Guards Poupool.Properties.DecisionsTie.Eco Poupool.Properties.DecisionsTie.Polls 2>&1 | grep -E "^error|✖|completed" | head -6 | tr '\n' ' ')
   echo "$(basename $(dirname $patch))/$(basename $patch): opaque=$rep build: $b"
   cd /verif; rm -rf "$scr" "$vs"
 done
